@@ -389,6 +389,16 @@ def run_invalid(ctx, rng, n):
                 if ln:
                     new = ln[0] + (" " + u if ": dyndep |" in ln[0] else " | " + u)
                     variants.append(("cycle-downstream", good.replace(ln[0], new, 1)))
+            # one new implicit output claimed twice: by one statement, and by two statements of the same file
+            blines = [l for l in good.split("\n") if l.startswith("build ")]
+
+            def claim(line, name):
+                left, right = line.split(": dyndep", 1)
+                return left + (" " if " | " in left else " | ") + name + ": dyndep" + right
+            variants.append(("new-output-twice-one-statement", good.replace(blines[0], claim(claim(blines[0], "o/shared.mod"), "o/shared.mod"), 1)))
+            if len(blines) >= 2:
+                a, b = rng.sample(blines, 2)
+                variants.append(("new-output-two-statements", good.replace(a, claim(a, "o/shared.mod"), 1).replace(b, claim(b, "o/shared.mod"), 1)))
             variants.append(("dup-output-claim", good + [l for l in good.split("\n") if l.startswith("build ")][0] + "\n"))
             variants.append(("garbage-binding", good.replace("\n", "\n  foo = bar\n", 2).replace("\n  foo = bar\n", "\n", 1)))
             variants.append(("explicit-input", good.replace(": dyndep", ": dyndep m0.h", 1)))
